@@ -112,6 +112,45 @@ CHECKS = {
         note="trusted: vf/oracle/sorting.py; conventions for n <= 2 from the docstrings",
         ref="DESIGN.md §4 C12",
     ),
+
+    "C13": dict(
+        technique="runtime monitoring: recorders on the finiteness / polynomial / insertion-encoding verdict functions (every binding) and Av "
+                  "wrappers decided by the structure theorems written with forbidden patterns; enumeration-consistency oracle; memo-table state "
+                  "check at the end of each history; CLI output captured",
+        text="Every basis of <=2 elements from S_1..S_3 (S_4 thorough), 2000 random bases up to length 6 and single-witness bases; 9 container "
+             "forms incl. one-shot iterators, 8 symmetries, call histories through the process-wide memos, Erdos-Szekeres / Fibonacci "
+             "consistency with brute-force counts up to N=8. Exploration only.",
+        note="trusted: vf/oracle/classes.py (bases of the juxtaposition classes validated against the two-runs description for n<=7)",
+        ref="DESIGN.md §4 C13",
+    ),
+    "C14": dict(
+        technique="runtime monitoring: recorders on the pin-word API + invariant hook on PinWordUtil.call (geometric predicates on the "
+                  "implementation's own coordinates), decided by an exact-rational pin placement; containment decided by definitional pattern "
+                  "containment; known finding K3 recognised by buggy-model replay",
+        text="Every pin word of length <=4 against every permutation of length <=4, sampled words of length 5 (6 thorough), tables and "
+             "enumeration for every length <=5 (6), every M-word of length <=8 for the translations. Exploration only.",
+        note="trusted: vf/oracle/pins.py",
+        ref="DESIGN.md §4 C14",
+    ),
+    "C15": dict(
+        technique="runtime monitoring: every automaton returned by the builders is executed on all words of the pin-sequence language up to a "
+                  "bound and decided by word-level semantics (decode -> contain); own product search for equivalence, path counting and cycle "
+                  "detection on the observed transition tables",
+        text="All bases {b}, b in S_1..S_3, sampled S_4 and pairs (all of S_4 + pairs thorough), every M-word of length <=8 (11), db vs scratch "
+             "vs union equivalence, has_finite_pinperms vs cycle detection. Words beyond the bound only through equivalence. Exploration only.",
+        note="trusted: vf/oracle/{automata,pins}.py; automata-lib objects are only read (states, transitions, initial, final)",
+        ref="DESIGN.md §4 C15",
+    ),
+    "C16": dict(
+        technique="runtime monitoring: recorders on the table tests and on the four offers of the verdict, decided by (A) enumeration of the "
+                  "class's simple permutations (Schmerl-Trotter consecutive-lengths criterion) and (B) explicit family formulas in all "
+                  "orientations; probes designed to isolate every orientation of every table",
+        text="~70 bases incl. all of S_3, sampled S_4/pairs, bases between families and one separating basis per (family, orientation); every "
+             "x in S_1..S_5 probed through each table function per orientation; simples enumerated to length 9 (10). 'Finitely many' that "
+             "does not show within the bound is counted unconfirmed, never held. Exploration only.",
+        note="trusted: vf/oracle/families.py (validated against the shipped tables on S_1..S_5 at design time), enumeration above length 7 by the library",
+        ref="DESIGN.md §4 C16",
+    ),
 }
 
 NOT_YET = {}
